@@ -10,7 +10,7 @@ PROPS = {
     "C18": ("atom", ["le", "be"], 160000, 4000000),
     "C16": ("atom+atomimp", ["le", "be", "beport"], 100000, 3000000),
     "C17": ("atom", ["le", "be"], 80000, 2500000),
-    "C05": ("mem+atom", ["le", "gnuld", "gccO2", "clangO3"], 15000, 360000),
+    "C05": ("mem+atom+memnomax", ["le", "gnuld", "gccO2", "clangO3"], 18000, 420000),
     "C19": ("atom+mem", ["be", "beport"], 24000, 700000),
 }
 
@@ -164,7 +164,7 @@ ASSUME = {
     "C18": ["shared memory of the generated 'atom' module (min 1, max 6 pages), little-endian and forced big-endian build", "sequentially consistent interleavings only (no weak-memory reorderings)", "race detector sees accesses of instrumented code (generated C, w2c2_base.h inlines, futex) to the descriptor fields data,size,pages,maxPages"],
     "C16": ["on the LE build each atomic builtin is one indivisible step as on hardware; the builtin's memory-order argument drives an x86-TSO store-buffer model: a store weaker than seq_cst is delayed in its task's FIFO buffer until the seeded scheduler drains it or the task executes a fence, read-modify-write, seq_cst store or lock operation, loads see the own buffer; load-load/load-store reordering and non-multi-copy-atomic machines are not modelled", "when a store was delayed the total order only has to respect program order (sequential consistency), otherwise real-time order too (linearizability); checked per 8-byte word and jointly over all 2-4 touched words", "histories <= 28 ops, linearizability search budget 1e6 states (over-budget histories are counted, never flagged)"],
     "C17": ["simulated pthread mutex/cond semantics follow POSIX (any waiter may be chosen by signal, spurious wake-ups allowed)", "CLOCK_REALTIME does not jump during a wait"],
-    "C05": ["only in-bounds accesses are generated (w2c2 does not bounds-check)", "two generated modules ('mem': non-shared memory of 1..8 pages with 3 passive segments; 'atom': shared memory of 1..6 pages whose maximum is reserved up front), the first built four ways: instrumented clang -O1 (arrays and gnu-ld data embedding), plain gcc -O2, plain clang -O3"],
+    "C05": ["only in-bounds accesses are generated (w2c2 does not bounds-check)", "three generated modules ('mem': non-shared memory of 1..8 pages with 3 passive segments; 'memnomax': the same without a declared maximum; 'atom': shared memory of 1..6 pages whose maximum is reserved up front), the first built four ways: instrumented clang -O1 (arrays and gnu-ld data embedding), plain gcc -O2, plain clang -O3"],
     "C19": ["big-endian behaviour is exercised by forcing WASM_ENDIAN on a little-endian host", "the translator-on-BE-host clause is only sampled without schedules or faults (auxiliary): forced-BE reader vs. plain reader on byte-reversed float immediates, function definitions compared as a set"],
 }
 
@@ -183,6 +183,8 @@ def check(prop, tier, seed, replay=None):
         for v in variants:
             if prop == "C05" and m == "atom" and v in ("gnuld", "clangO3"):
                 continue        # the shared-memory module has no data segments; one optimising build of it is enough
+            if prop == "C05" and m == "memnomax" and v != "le":
+                continue        # same code paths as 'mem', only the declared limits differ
             if m == "atomimp" and v != "le":
                 continue        # the module that imports its shared memory differs from 'atom' in what the translator emits, not in the header paths
             exes[(m, v)] = build(m, v)
@@ -205,7 +207,7 @@ def check(prop, tier, seed, replay=None):
             sys.stdout.write(r.stdout.decode(errors="replace")); sys.stderr.write(r.stderr.decode(errors="replace")[-8000:])
             return 1 if r.returncode != 0 else 0
         be = " be=1" in txt
-        mod = "mem" if "# module mem" in txt else ("atomimp" if "# module atomimp" in txt else "atom")
+        mod = "memnomax" if "# module memnomax" in txt else ("mem" if "# module mem" in txt else ("atomimp" if "# module atomimp" in txt else "atom"))
         mv = re.search(r"^# variant (\S+)", txt, re.M)
         var = mv.group(1) if mv and mv.group(1) in variants else ("be" if be else "le")
         exe = exes.get((mod, var)) or build(mod, var)
@@ -286,7 +288,7 @@ def check(prop, tier, seed, replay=None):
         with open(path, errors="replace") as f:
             txt = f.read()
         be = " be=1" in txt
-        mod = "mem" if "# module mem" in txt else ("atomimp" if "# module atomimp" in txt else "atom")
+        mod = "memnomax" if "# module memnomax" in txt else ("mem" if "# module mem" in txt else ("atomimp" if "# module atomimp" in txt else "atom"))
         mv = re.search(r"^# variant (\S+)", txt, re.M)
         var = mv.group(1) if mv and mv.group(1) in variants else ("be" if be else "le")
         return [exes.get((mod, var), list(exes.values())[0]), "--replay", path]
